@@ -35,8 +35,11 @@ RULE = ("names: 1-3 links over child (Instance) / kids (List) / byname (Dict) wi
         "whose link is reassigned to fresh objects with an equal / a different final value. 30% of the histories ('E') use a node class with value-based __eq__ (unhashable) "
         "and replace items / dict values by equal CLONES, so that any use of == instead of identity shows. "
         "Exhaustive: all histories of length <= 2 (quick) / <= 3 (thorough) over an 8-35 letter "
-        "alphabet (every op kind on the two upper objects, probes, rm, rg) on a 3-object tree for 13 fixed names "
-        "(2 with value-equality nodes, 3 with deferred registrations), registered before and after the tree is built. "
+        "alphabet (every op kind on the two upper objects, probes, rm, rg) on a 3-object tree for 17 fixed names "
+        "(2 with value-equality nodes, 3 with deferred registrations, 2 with falsy nodes, 2 with `_items` names), registered before and after the tree is built. "
+        "20% of the histories use node classes that are alive but FALSY ('F': __len__ = number of kids, falsy until the "
+        "node gets kids; 'Z': __bool__ always False) and 20% use link trait NAMES containing `_items` ('N': "
+        "sub_items_node / kid_items / line_items); truth values and names are opaque to the statement and the model. "
         "30% of the histories use deferred=True registrations ('D': @on_trait_change-decorated method of the root's "
         "class when the history starts with rg, on_trait_change(root._h, name, deferred=True) for later "
         "re-registrations; 'K': the keyword with a plain function), mostly with a List/Dict first link and with more "
@@ -87,6 +90,11 @@ def corpus():
         # with an equal / a different final value (seeded change C16-m7)
         "#1 c. v|sc 0 1;rg;sc 0 2;sc 0 1;sc 0 2;pv 4;rm;sc 0 2",
         "#D 2 c. x|rg;sc 0 1;sc 0 2;px 2;sc 0 2",
+        # falsy nodes (seeded change C16-m8), link trait names containing `_items` (C16-m9)
+        "F 4 c. k: v|rg;sc 0 1;pv 1;sk 1 2;pv 1;ap 2;pv 2;pv 3;sc 0 1;rm",
+        "Z 0 k. b: v|sk 0 2;rg;ds 1 0;ap 0;pv 3;pv 4;rm;pv 3",
+        "N 4 b: v|rg;ds 0 0;ds 0 1;ds 0 0;du 0 0 2 1;di 0 2 4;pv 5;rm;pv 5",
+        "N 4 c. k. b. v|rg;sc 0 1;ap 1;ds 2 0;ds 2 0;rv 1;sk 1 1;rm",
     ]
 
 
@@ -95,7 +103,7 @@ def generate(rng, tier):
         yield from G.exhaustive(2)
         n = 1500
     elif tier == "thorough":
-        yield from G.exhaustive(3)
+        yield from G.exhaustive(3, short_for_variants=True)
         n = 50000
     else:
         yield from G.exhaustive(2)
